@@ -12,11 +12,12 @@ CONSTANTS MaxP, MaxCap, MaxRest
 VARIABLES a, chosen
 W == INSTANCE Writer WITH MaxChunks <- 0, UnitSizes <- {0}, UnitKinds <- {"fmt"}, IfaceSets <- {{}}, Route <- "fmt", MaxWrite <- 0,
        PieceCount <- "piece", LatchBy <- "test", CachedViews <- FALSE, LatchError <- TRUE, CountAccepted <- TRUE,
-       KeepFirstError <- FALSE, Modes <- {}, Pieces <- {}, GivenFile <- "", MaxCalls <- 1, LaterModes <- {}, FreshPerCall <- TRUE,
+       KeepFirstError <- FALSE, LatchOn <- "err", Modes <- {}, Pieces <- {}, GivenFile <- "", MaxCalls <- 1, LaterModes <- {}, FreshPerCall <- TRUE,
+       ShareChoices <- {FALSE}, PerWriterWrapper <- FALSE,
        stage <- "cfg", w <- 0, chunks <- <<>>, kinds <- <<>>, fw <- 0, obs <- 0, delivered <- <<>>, sess <- 0
 Init == chosen = FALSE /\ a = <<>>
 Next == /\ ~chosen /\ chosen' = TRUE
-        /\ a' \in {"never", "whole", "prefix"} \X BOOLEAN \X (1..MaxP) \X (0..MaxCap) \X BOOLEAN \X (0..MaxRest)
+        /\ a' \in {"never", "whole", "prefix", "edge"} \X BOOLEAN \X (1..MaxP) \X (0..MaxCap) \X BOOLEAN \X (0..MaxRest)
 Spec == Init /\ [][Next]_<<a, chosen>>
 Equivalent == chosen => W!RechunkClosed(a[1], a[2], a[3], a[4], a[5], a[6]) = W!Rechunk(a[1], a[2], a[3], a[4], a[5], a[6], 0, 0)
 =============================================================================
